@@ -328,3 +328,44 @@ def run_convnarrow(prog, ctx=None):
                    "" if ok else "`%s` (%s, value %s after convert()) is narrowed to %s before any range test: values outside [%s, %s] are cut to their low bits and may pass the later check" % (
                        rs["d"]["n"], f.tstr(rs.get("t")), v, LT.get("s"), tr.lo, tr.hi))
     return res
+
+
+def run_narrowedge(prog, ctx=None):
+    """NARROWEDGE: where a wider integer is stored into a narrower member behind a range test, the test admits the whole range
+    of the member: an accepted interval that stops exactly one short of the member's largest (or smallest) value refuses a
+    value the member can hold (`x >= UINT8_MAX` written for `x > UINT8_MAX`)."""
+    res = Result("NARROWEDGE")
+    files = set(ctx.get("files", [])) if ctx else None
+    for f in funcs_of(prog, files):
+        sites = []
+        for b, i, e in f.elements():
+            for n in walk_own(e):
+                if n.get("k") == "bin" and n.get("op") == "=":
+                    l = strip(n["a"], lvalue_to_rvalue=False)
+                    r = raw_rhs(n["b"])
+                    rs = strip(r, all_casts=True)
+                    if l.get("k") != "mem" or rs.get("k") != "ref" or rs["d"].get("dk") != "param":
+                        continue
+                    LT, RT = f.T(l.get("t")), f.T(rs.get("t"))
+                    if LT.get("k") == "int" and RT.get("k") == "int" and (LT.get("sz") or 4) < (RT.get("sz") or 4):
+                        sites.append((b, i, n, rs, LT))
+        if not sites:
+            continue
+        an = null_partitioned(prog, f)
+        for b, i, n, rs, LT in sites:
+            v = None
+            el = f.blocks[b.id].el[i]
+            for st in an.pre_parts.get((b.id, i), {}).values():
+                x = an.ev(rs, dict(st), True, el)
+                v = x if v is None else AV(min(v.lo, x.lo), max(v.hi, x.hi), v.nan or x.nan)
+            rg = type_range(LT)
+            if v is None or rg is None:
+                continue
+            rg = (rg.lo, rg.hi)
+            short_hi = v.hi == rg[1] - 1 and v.lo >= rg[0]
+            short_lo = v.lo == rg[0] + 1 and v.hi <= rg[1] and rg[0] != 0
+            ok = not (short_hi or short_lo)
+            res.ob("%s:%s" % (f.qn, norm(show(n, f))[:50]), ok, f, n.get("l", f.line),
+                   "" if ok else "%s: `%s` is stored with an accepted range [%s, %s]; the member holds [%s, %s]: the range test refuses the boundary value" % (
+                       f.qn, norm(show(n, f))[:40], v.lo, v.hi, rg[0], rg[1]))
+    return res
